@@ -11,6 +11,10 @@
   C code is that every trace of the real programs (under qsim, `harness/qsend.c`) is accepted; the
   theorems (Props/C03, C04) are about all accepted event sequences.
 
+  A crash is the event `.restart`; what it did to the files (`crashMarks`, `crashBounce`, `crashTodoFiles`) can be reported only
+  in the crash window right after it (mode flag `St.crashed`, section "crash mode"): `accept` judges every other event in the
+  state with the window closed.
+
   Positions of recipient records are byte offsets in `local/<m>` / `remote/<m>`, as in the code
   (`mpos`); the state keeps each file as its list of records.
 -/
